@@ -302,6 +302,15 @@ CONFIGS = {
         '["preemphasize", {"name": "dither", "coeff": 0.5}]',
         '[{"name": "deltas", "num_deltas": 1}]',
     ),
+    # half of the recordings of a world with this configuration are digitally silent: their features sit on the log floor,
+    # every coefficient has zero variance and the per-utterance standardisation replaces it with 1 - for each of them,
+    # whichever process handles it and whatever that process handled before
+    "stft_cmvn_muted": (
+        '{"name": "stft", "bank": {"name": "fbank", "num_filts": 4, "sampling_rate": 8000}, '
+        '"frame_length_ms": 10, "frame_shift_ms": 5}',
+        '[]',
+        '["cmvn"]',
+    ),
     "si_dither": (
         '{"name": "si", "bank": {"name": "gabor", "scaling_function": "mel", "num_filts": 3, '
         '"sampling_rate": 8000}, "frame_shift_ms": 5}',
@@ -314,6 +323,8 @@ CONFIGS = {
 def make_world(rng, wid, n, config=None, ids=None, short_at=None):
     ids = ids or rng.sample(ID_POOL, n)
     w = _make_world(rng, wid, n, config, ids)
+    if w["config"] == "stft_cmvn_muted":
+        w["lens"] = [max(ln, 150) for ln in w["lens"]]  # every recording yields frames (the muted ones too)
     if short_at is not None and short_at < len(ids):
         w["lens"][short_at] = rng.choice([1, 7, 19])  # certainly an utterance without frames ...
         if short_at + 1 < len(ids):
@@ -373,6 +384,8 @@ def build_world(world):
     paths = []
     for i, (u, ln, fmt) in enumerate(zip(world["ids"], world["lens"], world["fmts"])):
         sig = rs.randint(-2000, 2000, size=ln).astype(np.float32)
+        if world["config"] == "stft_cmvn_muted" and i % 2 == 0:
+            sig[:] = 0.0
         p = os.path.join(d, "raw", "%d.%s" % (i, fmt))
         if fmt == "npy":
             np.save(p, sig)
@@ -847,6 +860,7 @@ def run(ctx):
         add_world(3, "stft_dither", exhaustive_ws=(0, 1, 2, 3), n_random=200)
         add_world(3, "si_dither", exhaustive_ws=(0, 2), n_random=100, short_at=1)
         add_world(4, "raw_dither_preemph", exhaustive_ws=(0, 2, 3), n_random=300)
+        add_world(5, "stft_cmvn_muted", exhaustive_ws=(0, 2, 3), n_random=100)
         add_world(5, None, exhaustive_ws=(0, 2), n_random=300)
         add_world(6, None, exhaustive_ws=(0, 3), n_random=300)
         add_world(8, None, exhaustive_ws=(0,), n_random=300)
@@ -857,6 +871,7 @@ def run(ctx):
         add_world(3, "si_dither", exhaustive_ws=(3,), n_random=10, short_at=1)
         add_world(4, "stft_dither_deltas", exhaustive_ws=(0,), n_random=30)
         add_world(4, "raw_dither_preemph", exhaustive_ws=(1,), kinds=(1,), n_random=20)
+        add_world(4, "stft_cmvn_muted", exhaustive_ws=(0, 2), n_random=8)
     # regression of the finding fixed by 7cfe6bc: ids that end in whitespace which
     # str.strip() would remove ("a\t" vs "a"), see NOTES.md
     add_world(3, "raw_dither", ids=["a\t", "a", "b+c"], exhaustive_ws=(0,), n_random=ctx.scale(4, 40))
